@@ -175,6 +175,8 @@ def run(ctx):
     tmpsync_rule(ctx, prog)
     lateid_rule(ctx, syn)
     preinsert_rule(ctx, prog)
+    noshrink_rule(ctx, prog)
+    mergeid_rule(ctx, prog)
 
     # ---------------- REIDX
     r_re = ctx.rule("C03.REIDX", "reindex(): every id map is remapped with the gap table of its own store, under the same emptiness guard; gaps()/Handle::reindex agree on the gap convention; indices mentioning a remapped handle type are remapped")
@@ -638,3 +640,100 @@ def preinsert_rule(ctx, prog, rid="C03.PREINSERT"):
     reg = [bi for bi, t in ins.calls() if re.search(r"HashMap.*::insert$", mirq.callee_of(t)[0] or "") or "{closure" in (mirq.callee_of(t)[0] or "")]
     r.notes.append("preinsert hooks: %d; StoreFor::insert calls the hook at block(s) %s" % (n, pre))
     ctx.floor(r, n, 3, "preinsert hooks")
+
+
+# ---------------------------------------------------------------------- NOSHRINK
+def noshrink_rule(ctx, prog, rid="C03.NOSHRINK"):
+    """the readers pad a store with empty slots in front of an item that carries a temporary id (`!A7` goes to slot 7):
+    Vec::resize_with(n).  resize_with also *shrinks*: with n below the current length - a file merged into a store that
+    is not empty - it throws live items away without un-registering their ids, which then resolve to nothing or to the
+    item that takes the slot.  Every such call must sit under the test n > current length."""
+    import panics
+    r = ctx.rule(rid, "every Vec::resize_with in a serde visitor of the stores is reached only under `new length > current length` of that store (padding never truncates)")
+    n = 0
+    for bid, b in sorted(prog.bodies.items()):
+        if "Visitor" not in bid or b.d.get("derived"):
+            continue
+        for bi, t in b.calls():
+            if not (mirq.callee_of(t)[0] or "").endswith("Vec::<T, A>::resize_with") or len(t.get("args", [])) < 2:
+                continue
+            n += 1
+            newlen = panics.norm_key(str(b.key_of_operand(t["args"][1])))
+            fs = panics.cmp_facts(b)
+            grows = False
+            for pol, f in panics.holds_at(b, bi, fs):
+                if len(f) != 3:
+                    continue
+                op, x, y = f
+                if not pol:
+                    op = {"Lt": "Ge", "Le": "Gt", "Gt": "Le", "Ge": "Lt", "Eq": "Ne", "Ne": "Eq"}.get(op, op)
+                x_, y_ = panics.norm_key(x), panics.norm_key(y)
+                if (op in ("Gt", "Ge") and x_ == newlen and re.search(r"_len\(|::len\(|\.len\(", y)) or (op in ("Lt", "Le") and y_ == newlen and re.search(r"_len\(|::len\(|\.len\(", x)):
+                    grows = True
+            r.hit("%s#%d" % (mirq.short_fn(bid), n), sample={"visitor": bid[-80:], "new_length": newlen, "only_grows": grows})
+            if not grows:
+                ctx.report(r, "%s|may-truncate" % re.sub(r"^.*<(\w+::)*(\w+)<.*$", r"\2", bid), "%s calls resize_with(%s, ..) without a dominating test that %s exceeds the current length: merging a file with temporary ids into a store that already holds more items truncates the store - live items vanish while their public ids stay registered" % (bid[-90:], newlen, newlen), b.file, t.get("line"))
+    ctx.floor(r, n, 2, "padding calls in the readers")
+
+
+# ---------------------------------------------------------------------- MERGEID
+def mergeid_rule(ctx, prog, rid="C03.MERGEID"):
+    """Storable::merge replaces the content of an item that is already in the store (same public id) by the incoming one.
+    The item stays in its slot, so it keeps *its own* handle: the value written to self.intid derives from the receiver
+    only.  The incoming item was bound to the next free handle by StoreFor::insert before the duplicate was noticed -
+    taking that over makes the id resolve to an item that claims a slot it does not sit in."""
+    r = ctx.rule(rid, "in every Storable::merge the handle written back to the merged item derives from the receiver's own handle, never from the incoming item")
+    n = 0
+    for bid, b in sorted(prog.bodies.items()):
+        if not re.search(r" as store::Storable>::merge$", bid) or b.d.get("derived"):
+            continue
+        n += 1
+        ctx.functions_analysed.add(bid)
+        bad = None
+        writes = 0
+        # where the receiver is overwritten as a whole (`*self = other`)
+        whole = [(bi, si) for bi, blk in enumerate(b.blocks) for si, s_ in enumerate(blk["s"]) if (s_.get("p") or {}).get("l") == 1 and (s_["p"].get("p") == ["*"]) and s_.get("rv")]
+
+        def source_of(op, depth=0):
+            """follow copies back to where the value was read: ('self-intid', block, index) | ('other', description)"""
+            pl = mirq.op_place(op)
+            while pl is not None and depth < 12:
+                depth += 1
+                if pl["l"] == 1 and any(isinstance(x, dict) and x.get("n") == "intid" for x in pl["p"]):
+                    return ("self-intid", None, None)
+                if pl["p"]:
+                    return ("other", "field of a temporary")
+                sd = b.single_def(pl["l"])
+                if sd is None:
+                    return ("other", "arg%d" % pl["l"] if 0 < pl["l"] <= b.argc else "several definitions")
+                bi_, si_, kind, payload = sd
+                if kind == "call":
+                    return ("other", "result of " + mirq.short_fn(mirq.callee_of(payload)[0] or "?"))
+                rv_ = payload
+                if rv_.get("r") in ("use", "cast") and rv_.get("o"):
+                    q = mirq.op_place(rv_["o"])
+                    if q is not None and q["l"] == 1 and any(isinstance(x, dict) and x.get("n") == "intid" for x in q["p"]):
+                        return ("self-intid", bi_, si_)
+                    pl = q
+                    continue
+                return ("other", rv_.get("r"))
+            return ("other", "?")
+        for bi, blk in enumerate(b.blocks):
+            for si, s_ in enumerate(blk["s"]):
+                p_ = s_.get("p") or {}
+                if p_.get("l") == 1 and any(isinstance(x, dict) and x.get("n") == "intid" for x in p_.get("p", [])) and s_.get("rv"):
+                    writes += 1
+                    rv = s_["rv"]
+                    op = rv.get("o")
+                    src = source_of(op) if op else ("other", rv.get("r"))
+                    if src[0] == "self-intid" and src[1] is not None:
+                        # the receiver's handle must have been read before the receiver was overwritten
+                        late = any((wb == src[1] and wi < src[2]) or (wb != src[1] and b.can_reach(wb, src[1])) for wb, wi in whole)
+                        if late:
+                            bad = (s_.get("line"), "the receiver's handle read after `*self = other`")
+                    elif src[0] != "self-intid":
+                        bad = (s_.get("line"), src[1])
+        r.hit(bid, sample={"merge": mirq.short_fn(bid), "handle_writes": writes})
+        if bad:
+            ctx.report(r, "%s|handle-from-other" % re.sub(r"^<(\w+::)*(\w+) as.*$", r"\2", bid), "%s writes a handle to the merged item that is not the receiver's own handle saved before the overwrite (%s): the incoming item was bound to the next free slot by insert(), so after the merge the item in slot h says it is in slot `len` - its public id resolves to a handle that denotes nothing, and soon the next inserted item" % (bid, str(bad[1])[:80]), b.file, bad[0])
+    ctx.floor(r, n, 2, "Storable::merge implementations")
